@@ -14,7 +14,7 @@ From Coq Require Import List Arith.
 From GB Require Import Base.Field Base.FNum Base.Tables Model.Shell Model.MomentInt Model.Overlap Model.DiffOp
   Model.OneBody Proofs.CoreSumP Proofs.CoreBlockP Proofs.CoreDiffP Proofs.CoreExamplesP
   Proofs.BlockMatP Proofs.AssembledP Proofs.AssembledOverlapP Proofs.AssembledHermP
-  Proofs.AssembledSphP Proofs.AssembledSphOverlapP Proofs.AssembledSphHermP Proofs.AssembledExamplesP.
+  Proofs.AssembledSphP Proofs.AssembledSphOverlapP Proofs.AssembledSphHermP Proofs.AssembledLincombP Proofs.AssembledExamplesP.
 Import ListNotations.
 
 (* herm_assembly, any block function (elements = lists over F, conj = negation) *)
@@ -218,3 +218,56 @@ Example C08_momentum_herm_mixed_Qc :
   = vneg K (nth 8 (nth 12 (angmom_integral_re K ex_mixed None) []) []).
 Proof. exact momentum_herm_mixed_ex. Qed.
 Print Assumptions C08_momentum_herm_mixed_Qc.
+
+(* ================= the final transformation (transform = T, lincomb) ================= *)
+(* an antisymmetric N x N matrix of vectors stays antisymmetric under T on both indices (T: S x N, rectangular
+   allowed) *)
+Theorem C08_antisym_lincomb :
+  forall (F : Type) (K : Fops F), is_field K ->
+  forall (t : list (list F)) (M : list (list (list F))) (N S d : nat),
+  0 < N -> (length M = N /\ Forall (fun row => length row = N) M) ->
+  (length t = S /\ Forall (fun row => length row = N) t) ->
+  (forall I J, I < N -> J < N -> length (nth J (nth I M []) []) = d) ->
+  (forall I J, I < N -> J < N -> nth I (nth J M []) [] = vneg K (nth J (nth I M []) [])) ->
+  forall a b, a < S -> b < S ->
+  nth a (nth b (Model.Assembly.lincomb2 vzero (vadd K) (vscale K) t t M) []) []
+  = vneg K (nth b (nth a (Model.Assembly.lincomb2 vzero (vadd K) (vscale K) t t M) []) []).
+Proof. exact (fun F K Kf => antisym_lincomb K Kf). Qed.
+Print Assumptions C08_antisym_lincomb.
+
+(* momentum / angular momentum with transform = T: Hermitian for any basis (any types, any order), any T *)
+Theorem C08_momentum_integral_herm_T :
+  forall (F : Type) (K : Fops F), is_field K ->
+  (forall x : F, fapx K x = x) -> fadd K (f1 K) (f1 K) <> f0 K ->
+  forall bs : list (shell F), (forall s, In s bs -> 0 < nseg s) -> basis_wf bs -> basis_exps K bs bs ->
+  0 < length bs ->
+  forall (t : list (list F)) (S : nat),
+  (length t = S /\ Forall (fun row => length row = ototal K bs) t) ->
+  forall a b, a < S -> b < S ->
+  nth a (nth b (momentum_integral_re K bs (Some t)) []) []
+  = map (fopp K) (nth b (nth a (momentum_integral_re K bs (Some t)) []) []).
+Proof. exact (fun F K Kf Hapx H2 => momentum_integral_herm_T K Kf Hapx H2). Qed.
+Print Assumptions C08_momentum_integral_herm_T.
+
+Theorem C08_angmom_integral_herm_T :
+  forall (F : Type) (K : Fops F), is_field K ->
+  (forall x : F, fapx K x = x) -> fadd K (f1 K) (f1 K) <> f0 K ->
+  forall bs : list (shell F), (forall s, In s bs -> 0 < nseg s) -> basis_wf bs -> basis_exps K bs bs ->
+  0 < length bs ->
+  forall (t : list (list F)) (S : nat),
+  (length t = S /\ Forall (fun row => length row = ototal K bs) t) ->
+  forall a b, a < S -> b < S ->
+  nth a (nth b (angmom_integral_re K bs (Some t)) []) []
+  = map (fopp K) (nth b (nth a (angmom_integral_re K bs (Some t)) []) []).
+Proof. exact (fun F K Kf Hapx H2 => angmom_integral_herm_T K Kf Hapx H2). Qed.
+Print Assumptions C08_angmom_integral_herm_T.
+
+(* a rectangular 2 x 14 transformation of the mixed Qc basis meets the hypotheses *)
+Example C08_momentum_herm_T_Qc :
+  forall opi osqrt oexp oln oboys,
+  let K := KQ opi osqrt oexp oln oboys in
+  (length ex_T = 2 /\ Forall (fun row => length row = ototal K ex_mixed) ex_T)
+  /\ nth 0 (nth 1 (momentum_integral_re K ex_mixed (Some ex_T)) []) []
+     = vneg K (nth 1 (nth 0 (momentum_integral_re K ex_mixed (Some ex_T)) []) []).
+Proof. exact (fun opi osqrt oexp oln oboys => conj (ex_T_shape opi osqrt oexp oln oboys) (momentum_herm_T_ex opi osqrt oexp oln oboys)). Qed.
+Print Assumptions C08_momentum_herm_T_Qc.
